@@ -7,7 +7,7 @@ from .. import lemmas as LM
 from .common import gen_factor, gen_measure, snapshot
 from .wf import wf_measure
 
-REG = Registry("C04", skip_clauses=["*/batch/*"])
+REG = Registry("C04")
 
 U_KINDS = ["measure", "measure+cache", "diag-measure", "diag-measure+cache", "pdf"]
 F_KINDS = ["general", "rank-one", "linear", "constant", "measure", "diag-measure", "pdf"]
